@@ -29,8 +29,8 @@ def bucket(bits):
     return Agg("Node", BV(BUCKET, 64), {0: Agg("Descendants", None, {0: Agg("Cow", BV(1, 64), {0: bits})})})
 
 
-def split(left, right, zero):
-    normal = Agg("Cow", BV(1, 64), {0: Opaque("normal", {"zero": zero})})
+def split(left, right, zero, tid=None):
+    normal = Agg("Cow", BV(1, 64), {0: Opaque("normal", {"zero": zero, "tid": tid})})
     return Agg("Node", BV(SPLIT, 64), {0: Agg("SplitPlaneNormal", None, {0: left, 1: right, 2: normal})})
 
 
@@ -235,6 +235,12 @@ def m_side(eng, st, callee, a, ty):
     vec = leaf.f[1]
     b = eng.fresh("side", z3.BoolSort())
     st.env.setdefault("sides", []).append((vec.data.get("id") if isinstance(vec, Opaque) else None, b))
+    n = eng.deref(a[0])
+    while isinstance(n, Ref):
+        n = eng.deref(n)
+    if isinstance(n, Agg) and n.kind == "Cow":
+        n = n.f[0]
+    st.env.setdefault("side_sites", []).append(n.data.get("tid") if isinstance(n, Opaque) else None)
     return one(Agg("Side", z3.If(b, BV(1, 64), BV(0, 64)), {}))
 
 
